@@ -752,14 +752,18 @@ def compare(case, obs, rs):
             cmp_res(f"Field.{op}", obs["res"][op], r, dis, exact=case["exact"], tol=obs.get("tol", 0.0))
         # rotate90: scalars are moved (exact); vectors are multiplied by cos/sin(pi/2) in binary64 (6e-17 instead of 0)
         fs = case["field"]
-        cmp_res(f"Field.rotate90({obs['rot_axes'][0]},{obs['rot_axes'][1]})", obs["rot"], rs[len(OPS)], dis,
-                exact=False, tol=(0.0 if (case["exact"] and fs["nvdim"] == 1) else obs.get("rot_tol", 0.0)), geometry=True)
+        targets = [v for _, v in obs["field"]["vmap"]]
+        if len(set(targets)) == len(targets):
+            # (which of two components mapped onto the SAME axis the reversed mapping keeps is incidental: not compared)
+            cmp_res(f"Field.rotate90({obs['rot_axes'][0]},{obs['rot_axes'][1]})", obs["rot"], rs[len(OPS)], dis,
+                    exact=False, tol=(0.0 if (case["exact"] and fs["nvdim"] == 1) else obs.get("rot_tol", 0.0)), geometry=True)
     elif case["kind"] == "meta":
         cmp_meta("Field(...) labels/mapping", obs["mk_res"], rs[0], dis)
         pos = 1
         for st in obs["steps"]:
             cmp_meta(f"{st['kind']}({st['arg']})", st["res"], rs[pos], dis)
-            if rs[pos + 1]["ok"] != st["rdim_before"]:
+            tg = [v for _, v in st["before"]["vmap"]]
+            if len(set(tg)) == len(tg) and rs[pos + 1]["ok"] != st["rdim_before"]:
                 dis.append(f"_r_dim_mapping impl {st['rdim_before']} vs model {rs[pos + 1]['ok']}")
             pos += 2
     else:
